@@ -67,6 +67,9 @@ def cases(tier, seed):
                 for fz in (True, False):
                     yield f"C11|bp|N={N},{regime},fz={int(fz)},high-rate", {"kind": "bp", "N": N, "ks": [N - 1, N - 2, N // 2], "fz": fz, "regime": regime, "tier": tier}
                     yield f"C11|sc|N={N},{regime},fz={int(fz)},pi=0,high-rate", {"kind": "sc", "N": N, "ks": [N - 1, N - 2, N // 2], "fz": fz, "pi": False, "regime": regime, "tier": tier}
+    # long, very low-rate codes on arbitrary (non-codeword) LLRs: partial sums grow to several thousand there
+    for N in (256, 512, 1024):
+        yield f"C11|sc-rule-long|N={N}", {"kind": "sc-rule-long", "N": N, "tier": tier}
     # the encoder's `dtype` option (bit dtype of messages / codewords); decoders built on such an encoder still take real-valued LLRs
     for dt in ("float64", "float16", "int64", "int32", "uint8"):
         for N in (8, 16):
@@ -85,7 +88,7 @@ def cost(p):
 
 
 def component_of(p):
-    return {"rank": "encoder", "enc": "encoder", "mask": "encoder", "sc": "sc", "bp": "polar-bp", "sc-rule": "sc", "dtype": "encoder"}[p["kind"]]
+    return {"rank": "encoder", "enc": "encoder", "mask": "encoder", "sc": "sc", "bp": "polar-bp", "sc-rule": "sc", "sc-rule-long": "sc", "dtype": "encoder"}[p["kind"]]
 
 
 def _Q():
@@ -118,7 +121,7 @@ def _msgs(k):
 
 
 def execute(p, res):
-    {"rank": rank_case, "enc": enc_case, "mask": mask_case, "sc": sc_case, "bp": bp_case, "sc-rule": sc_rule_case, "dtype": dtype_case}[p["kind"]](p, res)
+    {"rank": rank_case, "enc": enc_case, "mask": mask_case, "sc": sc_case, "bp": bp_case, "sc-rule": sc_rule_case, "sc-rule-long": sc_rule_long_case, "dtype": dtype_case}[p["kind"]](p, res)
 
 
 def rank_case(p, res):
@@ -365,6 +368,52 @@ def bp_case(p, res):
                         continue
                     _clean(dec, enc, N, k, msgs, cfg, "polar-bp", res)
     res.sample({"N": N, "ks": p["ks"], "regime": regime})
+
+
+def sc_rule_long_case(p, res):
+    """textbook SC (min-sum regime, dyadic magnitudes: every partial sum is exact in single precision) on 16 fixed pseudo-random LLR vectors per
+    configuration, magnitudes up to 0.75 and up to 100, k in {1,2,3,16}, both frozen values"""
+    import torch
+    from kaira.models.fec.decoders import SuccessiveCancellationDecoder
+    N = p["N"]
+    Q = _Q()
+
+    def vecs(nv, top):
+        out, s_ = [], 12345
+        for _ in range(nv):
+            row = []
+            for _i in range(N):
+                s_ = (s_ * 1103515245 + 12345) % (1 << 31)
+                mag = ((s_ >> 8) % int(top * 4)) * 0.25 + 0.25
+                s_ = (s_ * 1103515245 + 12345) % (1 << 31)
+                row.append(mag if (s_ >> 12) & 1 else -mag)
+            out.append(row)
+        return out
+    for k in (1, 2, 3, 16):
+        for fz in (True, False):
+            enc = _enc(k, N, frozen_zeros=fz, load_rank=True)
+            dec = SuccessiveCancellationDecoder(enc, regime="min_sum")
+            info = PR.info_set_from_ranking(Q, N, k)
+            mask = [i in info for i in range(N)]
+            for top in (0.75, 100.0):
+                cfg = f"N={N},k={k},min_sum,fz={int(fz)},|L|<={top}"
+                V = vecs(16, top)
+                try:
+                    y = dec(torch.tensor(V, dtype=torch.float32)).tolist()
+                except Exception as e:  # noqa: BLE001
+                    res.viol("sc", cfg, "raises", f"{type(e).__name__}: {str(e)[:200]}")
+                    continue
+                for vi, (vec, got) in enumerate(zip(V, y)):
+                    u, tie = PR.sc_decode(vec, mask, 0 if fz else 1, "min_sum")
+                    if tie:
+                        res.bump("ties_skipped")
+                        continue
+                    res.ev(1, nontrivial=1, transitions=1)
+                    want = [u[i] for i in info]
+                    if [int(t) if float(t).is_integer() else t for t in got] != want:
+                        res.viol("sc", cfg, "sc-rule", f"pseudo-random LLR vector #{vi} (dyadic magnitudes up to {top}): decoder output {got}, textbook successive cancellation gives {want}", {"vector": vi, "top": top})
+                        break
+    res.sample({"N": N, "vectors_per_config": 16})
 
 
 def sc_rule_case(p, res):
